@@ -20,7 +20,7 @@ func classify(t *otree, f failure) string {
 		return "hardlink-stat-size"
 	case t.flags.aliasDup && f.kind == "dup":
 		return "alias-duplicate"
-	case t.flags.throughLink && (f.kind == "glob" || f.kind == "stat-literal"):
+	case t.flags.throughLink && (f.kind == "glob" || f.kind == "stat-literal" || f.kind == "alias-literal"):
 		// Members placed through a link are registered under the literal name.
 		return "literal-names"
 	case f.kind == "testfs-symlink-stat":
